@@ -52,6 +52,26 @@ def iteration_order(data):
     return list(fs)
 
 
+def _enriched_type_problem(k, v):
+    """the enriched attribute must be *what the component parser returns* for the raw value — same type, not merely
+    something that compares or prints alike (a raw str equals a SpecifierSet through SpecifierSet.__eq__'s coercion)"""
+    from packaging.requirements import Requirement
+    from packaging.specifiers import SpecifierSet
+    from packaging.version import Version
+    if v is None:
+        return None
+    want = {"version": Version, "requires_python": SpecifierSet}.get(k)
+    if want is not None and type(v) is not want:
+        return f"enriched value is a {type(v).__name__}, the component parser returns a {want.__name__}"
+    if k == "requires_dist" and not (isinstance(v, list) and all(type(r) is Requirement for r in v)):
+        return "enriched value is not a list of Requirement objects"
+    if k in ("name", "summary", "metadata_version", "description_content_type", "license_expression") and not isinstance(v, str):
+        return f"enriched value is a {type(v).__name__}, expected str"
+    if k in ("dynamic", "provides_extra", "license_files") and not (isinstance(v, list) and all(isinstance(x, str) for x in v)):
+        return "enriched value is not a list of str"
+    return None
+
+
 def canon(v):
     if v is None or isinstance(v, (str, dict)):
         return G.enc_val(v)
@@ -400,6 +420,9 @@ class C17(Prop):
                     exp = enriched(k, data.get(k))
                     if got != exp:
                         return False, f"{k}: enriched value {got} != component parser's {exp}"
+                    bad_type = _enriched_type_problem(k, getattr(m, k))
+                    if bad_type:
+                        return False, f"{k}: {bad_type} (raw value {data.get(k)!r})"
             if not _same(before, data):
                 return False, "caller's dict modified"
             return True, ""
